@@ -11,4 +11,5 @@ import Bw.Props.C13
 #print axioms Bw.Props.C13.blank_lua_path_errs
 #print axioms Bw.Props.C13.blank_ai_condition_errs
 #print axioms Bw.Props.C13.async_fault_errs
+#print axioms Bw.Props.C13.bad_content_pattern_errs
 #print axioms Bw.Props.C13.run_fails_closed
